@@ -193,3 +193,101 @@ func parallelIndex(ctx *core.Ctx, r *core.Report, reach *core.Reach, exclude fun
 	}
 	_ = token.NoPos
 }
+
+// K3: counter-indexed buffers. A store buf[n] = v where buf and n are fields
+// of the same struct (a stack or ring kept with its own fill count) writes
+// past the end once the count reaches the capacity the buffer was made with,
+// and the count grows with the input (nesting depth, tokens per statement).
+// Such a store must be dominated by a test that relates the count to
+// len(buf) (after which the buffer is grown or the input refused).
+func fixedBuffer(ctx *core.Ctx, r *core.Report, reach *core.Reach, exclude func(*ssa.Function) bool, triage map[string]string, floor int) {
+	n := 0
+	for _, f := range ctx.RepoFuncs() {
+		if (reach != nil && !reach.Set[f]) || (exclude != nil && exclude(f)) {
+			continue
+		}
+		core.Instrs(f, func(b *ssa.BasicBlock, in ssa.Instruction) {
+			st, ok := in.(*ssa.Store)
+			if !ok {
+				return
+			}
+			ia, ok := st.Addr.(*ssa.IndexAddr)
+			if !ok {
+				return
+			}
+			cu, ok1 := ia.X.(*ssa.UnOp)
+			iu, ok2 := ia.Index.(*ssa.UnOp)
+			if !ok1 || !ok2 {
+				return
+			}
+			cf, ok1 := cu.X.(*ssa.FieldAddr)
+			xf, ok2 := iu.X.(*ssa.FieldAddr)
+			if !ok1 || !ok2 || cf.X != xf.X {
+				return
+			}
+			if _, isSlice := cu.Type().Underlying().(*types.Slice); !isSlice {
+				return
+			}
+			n++
+			stt, _ := core.Deref(cf.X.Type()).Underlying().(*types.Struct)
+			name := "?"
+			if stt != nil {
+				name = stt.Field(cf.Field).Name() + "[" + stt.Field(xf.Field).Name() + "]"
+			}
+			key := core.FnName(f) + "/" + name
+			mentions := func(v ssa.Value) (cnt, ln bool) {
+				seen := map[ssa.Value]bool{}
+				var walk func(v ssa.Value, d int)
+				walk = func(v ssa.Value, d int) {
+					if d > 6 || seen[v] {
+						return
+					}
+					seen[v] = true
+					switch x := v.(type) {
+					case *ssa.BinOp:
+						walk(x.X, d+1)
+						walk(x.Y, d+1)
+					case *ssa.UnOp:
+						if fa, ok := x.X.(*ssa.FieldAddr); ok && fa.X == cf.X {
+							if fa.Field == xf.Field {
+								cnt = true
+							}
+						}
+					case *ssa.Call:
+						if bi, ok := x.Common().Value.(*ssa.Builtin); ok && (bi.Name() == "len" || bi.Name() == "cap") {
+							if u, ok := x.Common().Args[0].(*ssa.UnOp); ok {
+								if fa, ok := u.X.(*ssa.FieldAddr); ok && fa.X == cf.X && fa.Field == cf.Field {
+									ln = true
+								}
+							}
+						}
+					case *ssa.Convert:
+						walk(x.X, d+1)
+					}
+				}
+				walk(v, 0)
+				return
+			}
+			guarded := false
+			for d := b; d != nil; d = d.Idom() {
+				if ifi, ok := d.Instrs[len(d.Instrs)-1].(*ssa.If); ok && d != b {
+					if c, l := mentions(ifi.Cond); c && l {
+						guarded = true
+					}
+				}
+			}
+			if !guarded {
+				if reason, ok := triage[key]; ok {
+					r.Ob("crash", "K3:"+key, ctx.Pos(st.Pos()), true, "triaged: "+reason)
+					return
+				}
+			}
+			r.Ob("crash", "K3:"+key, ctx.Pos(st.Pos()), guarded,
+				"K3 counter-indexed buffer: the store is not preceded by a test of the count against the buffer's length: input that needs more slots than the buffer was made with is an index out of range panic (or, for a ring, silently overwrites pending entries)")
+		})
+	}
+	r.Count("K3_counter_indexed_stores", n)
+	if n < floor {
+		r.Fatalf("K3 matched %d site(s), expected at least %d", n, floor)
+	}
+}
